@@ -30,6 +30,7 @@ def run(ctx):
     ctx.each(r06h, ctx, repo)
     ctx.each(r06i, ctx, repo)
     ctx.each(r06k, ctx, repo)
+    ctx.each(r06l, ctx, repo)
     from . import c04
 
     ctx.each(c04.r04e, ctx, repo)  # parameters at the first index are functions of the post-flush sizes
@@ -639,3 +640,37 @@ def r06k(ctx, repo):
     pp = [s for s in own_nodes(fi.node) if isinstance(s, ast.Assign) and astq.is_name(s.targets[0], "pop") and "get_pop(" in ast.unparse(s.value)]
     ok = len(tp) == 1 and ast.unparse(tp[0].value) == "%s.get_pop(pop_target)" % me and len(pp) == 1 and ast.unparse(pp[0].value) == "%s.get_pop(pop_source)" % me
     ctx.check(ok, "R06k", fi, tp[0] if tp else fi.node, "source and target populations looked up by their own names", "the transfer's source / target population objects are not looked up as get_pop(pop_source) / get_pop(pop_target)", stmt_text="transfer-pops")
+
+
+def r06l(ctx, repo):
+    ctx.rule("R06l", "ParameterSet.__init__ gives every population its own series: each value stored under a population key in a dict that becomes a Parameter is created by that very statement - a `.copy()` / `sc.dcp(...)` of the databook series or a `TimeSeries(...)` constructor call - so that a scenario, calibration factor or sample applied to one population cannot reach another population or the databook")
+    fi = repo.func("parameters", "ParameterSet.__init__")
+    dicts = set()
+    for c in ast.walk(fi.node):
+        if isinstance(c, ast.Call) and ast.unparse(c.func) == "Parameter" and len(c.args) >= 2:
+            for x in ast.walk(c.args[1]):
+                if isinstance(x, ast.Name):
+                    dicts.add(x.id)
+    n = 0
+    for s_ in own_nodes(fi.node):
+        if not (isinstance(s_, ast.Assign) and len(s_.targets) == 1 and isinstance(s_.targets[0], ast.Subscript)):
+            continue
+        base = s_.targets[0].value
+        while isinstance(base, ast.Subscript):
+            base = base.value
+        if not (isinstance(base, ast.Name) and base.id in dicts):
+            continue
+        v = s_.value
+        if isinstance(v, ast.Name):
+            # a local bound in the same loop body by a fresh-making statement
+            loop = s_
+            while loop is not None and not isinstance(loop, ast.For):
+                loop = getattr(loop, "_parent", None)
+            if loop is not None:
+                ds = [d for d in ast.walk(loop) if isinstance(d, ast.Assign) and any(isinstance(t, ast.Name) and t.id == v.id for t in d.targets)]
+                if len(ds) == 1 and ds[0].lineno < s_.lineno:
+                    v = ds[0].value
+        fresh = isinstance(v, ast.Call) and ((isinstance(v.func, ast.Attribute) and v.func.attr in ("copy", "deepcopy")) or ast.unparse(v.func) in ("sc.dcp", "dcp", "copy.deepcopy", "TimeSeries", "sc.odict", "dict", "defaultdict"))
+        n += 1
+        ctx.check(fresh, "R06l", fi, s_, "`%s` stores a fresh series" % ast.unparse(s_)[:70], "`%s` stores an object that was not created by this statement: populations (or the parameter set and the databook) share one series, so editing one of them changes the others" % ast.unparse(s_)[:90])
+    ctx.require(n >= 5, "R06l: expected >= 5 per-population stores in ParameterSet.__init__, found %d" % n)
